@@ -61,7 +61,7 @@ try:
         meta.setdefault('checks', {})
         for c in checks:
             t = time.time()
-            p = subprocess.run(['./check', c, '--tier', a.tier], cwd='/verif', env=env, stdout=subprocess.PIPE, stderr=subprocess.STDOUT)
+            p = subprocess.run(['./check', c, '--tier', a.tier], cwd=os.environ.get('VERIF_HOME', '/verif'), env=env, stdout=subprocess.PIPE, stderr=subprocess.STDOUT)
             out = p.stdout.decode()
             sigs = [l.strip()[:240] for l in out.splitlines() if l.strip().startswith('sig=')]
             nviol = len([l for l in out.splitlines() if l.startswith('VIOLATION')])
